@@ -110,11 +110,26 @@ def load(path):
     return d
 
 
+def snapshot_repo():
+    """Work from a private snapshot so that seeds being applied to /repo meanwhile cannot race with the sweep."""
+    global REPO
+    if subprocess.run("git -C %s status --porcelain" % REPO, shell=True, capture_output=True, text=True).stdout.strip():
+        sys.exit("the repository has uncommitted changes: not sweeping")
+    base = os.path.join(ROOT, "base")
+    shutil.copytree(REPO, base, ignore=shutil.ignore_patterns(".git", "__pycache__", "*.pyc", "*.egg-info", ".pytest_cache"))
+    REPO = base
+
+
 def stage(name, fn, jobs, only, out):
     os.makedirs(OUTDIR, exist_ok=True)
     os.makedirs(ROOT, exist_ok=True)
+    snapshot_repo()
     done = load(out)
     todo = [m for m in all_mutants(only) if m["id"] not in done]
+    if name == "tests":
+        # mutants on which every check stayed silent first: those are the ones to triage
+        ck = load(os.path.join(OUTDIR, "checks.jsonl"))
+        todo.sort(key=lambda m: 0 if (m["id"] in ck and not ck[m["id"]].get("violation") and not ck[m["id"]].get("error")) else 1)
     print("%s: %d mutants to do (%d done)" % (name, len(todo), len(done)), flush=True)
     fh = open(out, "a")
     n = 0
@@ -166,7 +181,8 @@ def report(args):
 
 if __name__ == "__main__":
     ap = argparse.ArgumentParser()
-    ap.add_argument("cmd", choices=["checks", "tests", "report"])
+    ap.add_argument("cmd", choices=["checks", "tests", "report", "probe"])
+    ap.add_argument("--pids", default="")
     ap.add_argument("-j", type=int, default=14)
     ap.add_argument("--only", action="append")
     ap.add_argument("--out")
@@ -175,5 +191,24 @@ if __name__ == "__main__":
         stage("checks", run_checks, a.j, a.only, a.out or os.path.join(OUTDIR, "checks.jsonl"))
     elif a.cmd == "tests":
         stage("tests", run_tests, a.j, a.only, a.out or os.path.join(OUTDIR, "tests.jsonl"))
+    elif a.cmd == "probe":
+        # run (some) checks on the mutants selected with --only, print the verdicts, keep nothing
+        os.makedirs(ROOT, exist_ok=True)
+        snapshot_repo()
+        pids = a.pids.split(",") if a.pids else []
+
+        def one(m):
+            def go(d):
+                out = subprocess.run([PY, os.path.join(SA, "multi.py"), "--repo", d] + pids, capture_output=True, text=True, timeout=900)
+                line = [l for l in out.stdout.splitlines() if l.startswith("{")]
+                r = json.loads(line[-1]) if line else {}
+                return m, {p_: (v["rules"] or v["error"][:80]) for p_, v in r.items() if v["status"] != "ok"}
+            return with_mutant(m, go)
+        try:
+            with ThreadPoolExecutor(max_workers=a.j) as ex:
+                for m, r in ex.map(one, all_mutants(a.only)):
+                    print("%-60s %-40s -> %-40s %s" % (m["id"], m["before"][:40].replace("\n", "\\n"), m["after"][:40].replace("\n", "\\n"), r or "SILENT"))
+        finally:
+            shutil.rmtree(ROOT, ignore_errors=True)
     else:
         report(a)
